@@ -13,6 +13,11 @@ use crate::case::{Entry, JobSpec};
 use crate::sched;
 use crate::simfs::{FsEvent, SimFs};
 
+/// Hook H4: the cartesian products of `selector::extend::functions::paths` may build this
+/// many paths per compilation. Exhausting it with fewer than 10^5 evaluation ticks spent is
+/// the extension algorithm blowing up, whatever the stylesheet (it has no loop of its own there).
+pub const PATHS_FUEL: u64 = 200_000;
+
 #[derive(Clone, Debug, PartialEq, Eq)]
 pub struct LogEvent {
     pub kind: &'static str,
@@ -186,7 +191,13 @@ pub fn install_panic_hook() {
         let mut rec = PanicRec { loc, ..Default::default() };
         if let Some(f) = payload.downcast_ref::<grass_compiler::verif::FuelExhausted>() {
             rec.fuel = Some(f.0);
-            rec.site = if f.0 == "lexer" { fuel_site() } else { f.0.to_string() };
+            rec.site = if f.0 == "lexer" {
+                fuel_site()
+            } else if f.0 == "paths" {
+                "selector::extend::functions::paths".to_string()
+            } else {
+                f.0.to_string()
+            };
         } else if let Some(s) = payload.downcast_ref::<&str>() {
             rec.msg = s.to_string();
         } else if let Some(s) = payload.downcast_ref::<String>() {
@@ -419,6 +430,7 @@ pub fn build_and_run(spec: &JobSpec, fs: &dyn grass_compiler::Fs, logger: &dyn L
     grass_compiler::verif::set_lexer_fuel(true);
     grass_compiler::verif::set_eval_fuel(spec.eval_fuel);
     grass_compiler::verif::set_depth_limit(spec.depth_limit);
+    grass_compiler::verif::set_paths_fuel(PATHS_FUEL);
     let _ = take_last_panic();
     let r = catch_unwind(AssertUnwindSafe(|| {
         let res = match &spec.entry {
@@ -435,6 +447,9 @@ pub fn build_and_run(spec: &JobSpec, fs: &dyn grass_compiler::Fs, logger: &dyn L
         Err(_) => {
             let rec = take_last_panic().unwrap_or_default();
             match rec.fuel {
+                // many paths with next to no evaluation work: the extension algorithm is blowing
+                // up; with a lot of evaluation work behind it, it is just a long-running program
+                Some("paths") if grass_compiler::verif::eval_ticks() > 100_000 => Outcome::Hang { kind: "eval".to_string(), site: "eval".to_string() },
                 Some(k) => Outcome::Hang { kind: k.to_string(), site: rec.site },
                 None => Outcome::Panic { loc: rec.loc, msg: rec.msg.chars().take(200).collect() },
             }
@@ -458,6 +473,7 @@ pub fn run_job(spec: &JobSpec) -> JobResult {
     let lexer_ops = grass_compiler::verif::lexer_ops();
     let max_depth = grass_compiler::verif::max_depth();
     grass_compiler::verif::set_depth_limit(0);
+    grass_compiler::verif::set_paths_fuel(0);
     grass_compiler::verif::set_lexer_fuel(false);
     grass_compiler::verif::set_eval_fuel(0);
     let after = stdio_captured_len();
